@@ -2601,7 +2601,10 @@ def cellcount_rules(run, rule, ast):
                 continue
             ok0 = astq.affine(init[0]["c"][1]) == {1: 1}
             lp = _enclosing(parent, mul[0], ("CXXForRangeStmt",))
-            okl = bool(lp) and _members(lp[0]["range"]) == [] and astq.strip(lp[0]["range"]).get("k") == "DeclRefExpr" and "groups" == astq.strip(lp[0]["range"])["ref"]["name"].split("::")[-1] \
+            # the per-dimension groups: the local whose end() - 1 is handed to build_dispatch_table (identified by that use, not by name)
+            bdt = [n for n in astq.walk(f["body"]) if n.get("k") == "CXXMemberCallExpr" and (n.get("callee") or "").endswith("::build_dispatch_table")]
+            gdids = {x["ref"]["did"] for n in bdt for x in astq.walk(n["c"][3] if len(n.get("c") or []) > 3 else n) if x.get("k") == "DeclRefExpr" and x["ref"].get("storage") == "local"}
+            okl = bool(lp) and _members(lp[0]["range"]) == [] and astq.strip(lp[0]["range"]).get("k") == "DeclRefExpr" and astq.strip(lp[0]["range"])["ref"].get("did") in gdids \
                 and not [g for g in _enclosing(parent, mul[0], ("IfStmt",)) if _in_subtree(lp[0]["body"], g)]
             # the local `groups` holds one entry per dimension (declared in the method loop, resized to the arity)
             factor = astq.strip(mul[0]["c"][1])
